@@ -47,7 +47,7 @@ def r_nowrite_none(rep, prog):
                   "runs only for init in %s" % sorted(vals, key=str),
                   "%s may write lower metadata in assume-initialised mode (init discriminants reaching it: %s)" % (name, sorted(vals, key=str)),
                   t["span"])
-    rep.floor(rule, "may-write calls in Lower::new", n, 3)
+    rep.floor(rule, "may-write calls in Lower::new", n, 2)
     for bi, si, s in b.stmts():
         if s["k"] == "assign" and any(e["k"] == "deref" for e in (s["place"].get("p") or [])):
             ty = s["place"].get("ty") or ""
@@ -105,12 +105,22 @@ def r_nowrite_none(rep, prog):
             cond = None
             for s_, d_ in ces:
                 c = tm.operand(b.term(s_)["discr"])
-                if c[0] == "call" and c[1].endswith("PartialEq>::eq") and T.mentions_param(c, "init"):
+                if c[0] == "call" and c[1].endswith(("PartialEq>::eq", "PartialEq>::ne", "PartialEq::eq", "PartialEq::ne")) and T.mentions_param(c, "init"):
                     other = [x for x in T.walk(c) if (x[0] == "c" and x[1] == NONE) or (x[0] == "agg" and x[1].startswith("adt:llfree::Init::None"))]
                     if other:
                         cond = lib.bool_edge_polarity(b, s_, d_)
+                        if cond is not None and c[1].endswith("::ne"):
+                            cond = not cond
                     else:
                         cond = "compared with %s" % T.show(c)
+                elif c[0] == "discr" and T.canon(T.strip_refs(c[1])) == ("p", "init"):
+                    # `match init { Init::None => .., _ => .. }`
+                    vals = lib.switch_value_for_edge(b, s_, d_)
+                    listed = [v for v, _ in b.term(s_)["targets"]]
+                    if vals == [NONE]:
+                        cond = True
+                    elif NONE not in vals and ("otherwise" not in vals or NONE in listed):
+                        cond = False
             seen[variant] = cond
         rep.check(seen.get("None") is True and seen.get("Some") is False, rule, "new|tree_init-none-iff-init-none",
                   "tree_init is None exactly when init == Init::None",
@@ -155,7 +165,7 @@ def r_new_errs(rep, prog):
         rep.check(cause is not None, rule, "new|err-cause", "Err return caused by: %s" % cause,
                   "LLFree::new has a failure exit that is not caused by invalid buffers or a failing sub-constructor: a valid "
                   "quiescent metadata image can be rejected", b.span)
-    rep.floor(rule, "Err return states of LLFree::new", n, 3)
+    rep.floor(rule, "Err return states of LLFree::new", n, 2)
     # sub-constructors: Lower::new / Locals::new fail only on the length/alignment guard (first switch region)
     for fn in ("llfree::lower::Lower::new", "llfree::local::Locals::new"):
         sb = lib.need_body(prog, fn)
